@@ -27,34 +27,41 @@ def get_nbt_string(nbt_type: "NBTType") -> str:
     }[nbt_type]
 
 
+def __is_nbt_operator(token: Token) -> bool:
+    """Whether the token is the `::` operator (a string literal "::" is not)"""
+    return token.token_type == TokenType.OPERATOR and token.string == "::"
+
+
 def get_nbt_type(tokens: list[Token]) -> NBTType | None:
-    if len(tokens) == 1 and tokens[0].string == "::":
+    if len(tokens) == 1 and __is_nbt_operator(tokens[0]):
         return NBTType.AUTO_STORAGE
     if len(tokens) < 2:
         return None
     __is_storage_nbt = (
         len(tokens) > 3
         and tokens[0].token_type == TokenType.KEYWORD
+        and tokens[1].token_type == TokenType.OPERATOR
         and tokens[1].string == ":"
         and tokens[2].token_type == TokenType.KEYWORD
-        and tokens[3].string == "::"
+        and __is_nbt_operator(tokens[3])
     )
     __is_auto_storage_nbt = (
-        tokens[0].token_type == TokenType.KEYWORD and tokens[1].string == "::"
+        tokens[0].token_type == TokenType.KEYWORD and __is_nbt_operator(tokens[1])
     )
-    __is_full_auto_storage_nbt = tokens[0].string == "::"
+    __is_full_auto_storage_nbt = __is_nbt_operator(tokens[0])
     __is_block_nbt = (
-        tokens[0].token_type == TokenType.PAREN_SQUARE and tokens[1].string == "::"
+        tokens[0].token_type == TokenType.PAREN_SQUARE
+        and __is_nbt_operator(tokens[1])
     )
     __is_entity_nbt = (
         tokens[0].string.startswith("@")
         and tokens[0].string[1] in "parsen"
         and (
-            tokens[1].string == "::"
+            __is_nbt_operator(tokens[1])
             or (
                 len(tokens) >= 3
                 and tokens[1].token_type == TokenType.PAREN_SQUARE
-                and tokens[2].string == "::"
+                and __is_nbt_operator(tokens[2])
             )
         )
     )
